@@ -590,3 +590,93 @@ pub fn gen_version_model(c: &mut Choice, max_needs: usize, max_aux: usize, max_d
     }
     m
 }
+
+// ---- independent header reader (used to locate fields of the linker-produced sample objects) -------
+
+pub fn read_ehdr(b: &[u8]) -> Option<(Enc, Ehdr)> {
+    if b.len() < 16 || &b[0..4] != b"\x7fELF" {
+        return None;
+    }
+    let c64 = match b[4] {
+        1 => false,
+        2 => true,
+        _ => return None,
+    };
+    let le = match b[5] {
+        1 => true,
+        2 => false,
+        _ => return None,
+    };
+    let e = Enc { c64, le };
+    let mut ident = [0u8; 16];
+    ident.copy_from_slice(&b[..16]);
+    let mut o = 16;
+    let e_type = rd_u16(le, b, o)?;
+    let e_machine = rd_u16(le, b, o + 2)?;
+    let e_version = rd_u32(le, b, o + 4)?;
+    o += 8;
+    let ws = if c64 { 8 } else { 4 };
+    let e_entry = rd_word(e, b, o)?;
+    let e_phoff = rd_word(e, b, o + ws)?;
+    let e_shoff = rd_word(e, b, o + 2 * ws)?;
+    o += 3 * ws;
+    let e_flags = rd_u32(le, b, o)?;
+    o += 4;
+    let h = Ehdr { ident, e_type, e_machine, e_version, e_entry, e_phoff, e_shoff, e_flags, e_ehsize: rd_u16(le, b, o)?, e_phentsize: rd_u16(le, b, o + 2)?, e_phnum: rd_u16(le, b, o + 4)?, e_shentsize: rd_u16(le, b, o + 6)?, e_shnum: rd_u16(le, b, o + 8)?, e_shstrndx: rd_u16(le, b, o + 10)? };
+    Some((e, h))
+}
+
+pub fn read_shdr(e: Enc, b: &[u8], off: usize) -> Option<Shdr> {
+    let le = e.le;
+    if e.c64 {
+        Some(Shdr { sh_name: rd_u32(le, b, off)?, sh_type: rd_u32(le, b, off + 4)?, sh_flags: rd_u64(le, b, off + 8)?, sh_addr: rd_u64(le, b, off + 16)?, sh_offset: rd_u64(le, b, off + 24)?, sh_size: rd_u64(le, b, off + 32)?, sh_link: rd_u32(le, b, off + 40)?, sh_info: rd_u32(le, b, off + 44)?, sh_addralign: rd_u64(le, b, off + 48)?, sh_entsize: rd_u64(le, b, off + 56)? })
+    } else {
+        let f = |k: usize| rd_u32(le, b, off + 4 * k);
+        Some(Shdr { sh_name: f(0)?, sh_type: f(1)?, sh_flags: f(2)? as u64, sh_addr: f(3)? as u64, sh_offset: f(4)? as u64, sh_size: f(5)? as u64, sh_link: f(6)?, sh_info: f(7)?, sh_addralign: f(8)? as u64, sh_entsize: f(9)? as u64 })
+    }
+}
+
+pub fn read_phdr(e: Enc, b: &[u8], off: usize) -> Option<Phdr> {
+    let le = e.le;
+    if e.c64 {
+        Some(Phdr { p_type: rd_u32(le, b, off)?, p_flags: rd_u32(le, b, off + 4)?, p_offset: rd_u64(le, b, off + 8)?, p_vaddr: rd_u64(le, b, off + 16)?, p_paddr: rd_u64(le, b, off + 24)?, p_filesz: rd_u64(le, b, off + 32)?, p_memsz: rd_u64(le, b, off + 40)?, p_align: rd_u64(le, b, off + 48)? })
+    } else {
+        let f = |k: usize| rd_u32(le, b, off + 4 * k);
+        Some(Phdr { p_type: f(0)?, p_offset: f(1)? as u64, p_vaddr: f(2)? as u64, p_paddr: f(3)? as u64, p_filesz: f(4)? as u64, p_memsz: f(5)? as u64, p_flags: f(6)?, p_align: f(7)? as u64 })
+    }
+}
+
+/// Writer self-check on linker-produced bytes: every header of a sample object, decoded by the reader
+/// above and re-encoded by the writer, must reproduce the original file bytes. Returns headers checked.
+pub fn roundtrip_headers(b: &[u8]) -> Result<usize, String> {
+    let (e, eh) = read_ehdr(b).ok_or("not an ELF header")?;
+    let mut n = 0;
+    let eb = enc_bytes(e, |w| eh.write(w));
+    if b.get(..eb.len()) != Some(&eb[..]) {
+        return Err("re-encoded ELF header differs from the file bytes".into());
+    }
+    n += 1;
+    if eh.e_shoff != 0 && eh.e_shnum != 0 {
+        for i in 0..eh.e_shnum as usize {
+            let off = eh.e_shoff as usize + i * shdr_size(e);
+            let h = read_shdr(e, b, off).ok_or("short section header table")?;
+            let hb = enc_bytes(e, |w| h.write(w));
+            if b.get(off..off + hb.len()) != Some(&hb[..]) {
+                return Err(format!("re-encoded section header {} differs from the file bytes", i));
+            }
+            n += 1;
+        }
+    }
+    if eh.e_phoff != 0 && eh.e_phnum != 0 && eh.e_phnum != 0xffff {
+        for i in 0..eh.e_phnum as usize {
+            let off = eh.e_phoff as usize + i * phdr_size(e);
+            let h = read_phdr(e, b, off).ok_or("short program header table")?;
+            let hb = enc_bytes(e, |w| h.write(w));
+            if b.get(off..off + hb.len()) != Some(&hb[..]) {
+                return Err(format!("re-encoded program header {} differs from the file bytes", i));
+            }
+            n += 1;
+        }
+    }
+    Ok(n)
+}
